@@ -851,17 +851,23 @@ def _dot_csc_ndarray_type_sparse(dt1, dt2):
                             mask[ind] = head
                             head = ind
                             length += 1
+            start = nnz
             for _ in range(length):
-                if sums[head] != 0:
-                    indices[nnz] = head
-                    data[nnz] = sums[head]
-                    nnz += 1
+                # every touched position is stored (this is what `_csc_ndarray_count_nnz`
+                # counted and `indptr` describes); sums that cancel are pruned by the caller
+                indices[nnz] = head
+                data[nnz] = sums[head]
+                nnz += 1
 
                 temp = head
                 head = mask[head]
 
                 mask[temp] = -1
                 sums[temp] = 0
+            # the linked list yields the positions in reverse order of first touch
+            order = np.argsort(indices[start:nnz])
+            indices[start:nnz] = indices[start:nnz][order]
+            data[start:nnz] = data[start:nnz][order]
         return data, indices, indptr
 
     return _dot_csc_ndarray_sparse
